@@ -375,7 +375,16 @@ class Runner:
         else:
             k = int(call[1])
             q_abs = terms.obj_of_px(call[2])
-            exp = S.run(S.fresh.structure, R.val(q_abs), S.classes[k])
+            # realise q from the very payload object where possible (same nested objects, hence the same set
+            # iteration orders: a set-valued item structured into a `str` field prints in iteration order)
+            if terms.canon_sx(q_abs) == terms.canon_sx(p_abs):
+                q_real = dict(payload) if isinstance(payload, dict) else payload
+            elif isinstance(payload, dict) and terms.canon_sx(q_abs) == terms.canon_sx(("d", del_key(list(items), name_key))):
+                q_real = dict(payload)
+                q_real.pop(S.tag_name, None)
+            else:
+                q_real = R.val(q_abs)
+            exp = S.run(S.fresh.structure, q_real, S.classes[k])
         agree = same_outcome(ri, exp)
         if agree is None:
             chk.unmodelled += 1
